@@ -124,6 +124,9 @@ def gen_world(r, knobs=None):
     k.update(knobs or {})
     names = list(TASK_NAMES)
     r.shuffle(names)
+    if r.random() < 0.15:
+        # a task named like a group (a group is not a task: nothing may leak between them)
+        names.append(r.choice(['grp', 'hh', 'gx']))
     ns_names = list(NS_NAMES)
     r.shuffle(ns_names)
     classes = []
